@@ -213,14 +213,34 @@ class Executor:
         if self.ctx is None:
             return vol
         seen = set()
+        methods = {}
         for c in self.ctx.mro():
             for mname, f in c.methods.items():
-                if mname in seen:
+                if mname not in methods:
+                    methods[mname] = f
+        # private helpers that are only ever called from __init__ (directly or through such helpers)
+        # run before any process exists: what they write is not volatile
+        callers: Dict[str, set] = {}
+        for mname, f in methods.items():
+            for n in walk_local(f.node):
+                if isinstance(n, ast.Call) and isinstance(n.func, ast.Attribute) and isinstance(n.func.value, ast.Name) \
+                        and n.func.value.id == 'self' and n.func.attr in methods:
+                    callers.setdefault(n.func.attr, set()).add(mname)
+        init_only = set()
+        changed = True
+        while changed:
+            changed = False
+            for mname in methods:
+                if mname in init_only or not mname.startswith('_') or mname.startswith('__'):
                     continue
-                seen.add(mname)
-                if mname == '__init__' or mname == self.func.name or f.node is self.func.node:
-                    continue
-                vol |= direct_self_writes(f.node)
+                cs = callers.get(mname, set())
+                if cs and all(c == '__init__' or c in init_only for c in cs):
+                    init_only.add(mname)
+                    changed = True
+        for mname, f in methods.items():
+            if mname == '__init__' or mname in init_only or mname == self.func.name or f.node is self.func.node:
+                continue
+            vol |= direct_self_writes(f.node)
         return vol - self.opts.stable_fields
 
     # -- entry ----------------------------------------------------------------
